@@ -417,6 +417,28 @@ fn internal_iter<X: PartialEq + std::fmt::Debug + Clone, I: Iterator<Item = X> +
             if nth.as_ref() != rest.last() {
                 bail!(format!("{}-nth", what), "{} from node {}: after {} next() calls nth({}) = {:?}, expected {:?}", what, usize::from(start), j, k, nth, rest.last());
             }
+            // nth in the middle, then the iteration continues right behind it
+            let mid = k / 2;
+            let mut it2 = it.clone();
+            let got = it2.nth(mid);
+            let after = it2.next();
+            if got.as_ref() != rest.get(mid) || after.as_ref() != rest.get(mid + 1) {
+                bail!(format!("{}-nth-then-next", what), "{} from node {}: after {} next() calls nth({}) = {:?} followed by next() = {:?}; expected {:?} then {:?}", what, usize::from(start), j, mid, got, after, rest.get(mid), rest.get(mid + 1));
+            }
+        }
+        // nth / skip past the end reports the end, and the iterator stays exhausted afterwards
+        for over in [rest.len(), rest.len() + 2] {
+            let mut it3 = it.clone();
+            let got = it3.nth(over);
+            let again = (it3.next(), it3.next());
+            if got.is_some() || again.0.is_some() || again.1.is_some() {
+                bail!(format!("{}-nth-past-end", what), "{} from node {}: after {} next() calls nth({}) = {:?} with {} items left, and next() afterwards gives {:?}", what, usize::from(start), j, over, got, rest.len(), again);
+            }
+        }
+        let skipped: Vec<X> = it.clone().skip(1).step_by(2).take(bound).collect();
+        let exp_skipped: Vec<X> = rest.iter().skip(1).step_by(2).cloned().collect();
+        if skipped != exp_skipped {
+            bail!(format!("{}-skip-step_by", what), "{} from node {}: skip(1).step_by(2) yields {:?}, expected {:?}", what, usize::from(start), skipped, exp_skipped);
         }
     }
     Ok(())
@@ -800,6 +822,30 @@ pub fn c10_double_ended<P: Payload>(st: &State<P>, rng: &mut Rng, stats: &mut C1
                         bail!(format!("{:?}-internal-iteration", kind), "{:?} of node {} after {} front and {} back pulls: fold visits {:?}, rfold visits {:?}, count() = {}; the remaining elements are {:?}", kind, usize::from(id), nf, nb, us(&fw), us(&bw), cnt, us(&mid));
                     }
                     obs += 1;
+                }
+                // nth_back inside and past the range
+                {
+                    macro_rules! nb {
+                        ($it:expr, $k:expr) => {{
+                            let mut it = $it;
+                            let got = it.nth_back($k);
+                            let rest: Vec<NodeId> = it.take(2 * a.count() + 3).collect();
+                            (got, rest)
+                        }};
+                    }
+                    for k in [0usize, f.len() / 2, f.len().saturating_sub(1), f.len(), f.len() + 1] {
+                        let (got, rest) = match kind {
+                            DeKind::Children => nb!(id.children(a), k),
+                            DeKind::Preceding => nb!(id.preceding_siblings(a), k),
+                            DeKind::Following => nb!(id.following_siblings(a), k),
+                        };
+                        let exp = if k < f.len() { Some(f[f.len() - 1 - k]) } else { None };
+                        let exp_rest: Vec<NodeId> = if k < f.len() { f[..f.len() - 1 - k].to_vec() } else { Vec::new() };
+                        if got != exp || rest != exp_rest {
+                            bail!(format!("{:?}-nth_back", kind), "{:?} of node {}: nth_back({}) = {:?} and then the front yields {:?}; the laws require {:?} and {:?} (forward sequence {:?})", kind, usize::from(id), k, got.map(usize::from), us(&rest), exp.map(usize::from), us(&exp_rest), us(&f));
+                        }
+                        obs += 1;
+                    }
                 }
                 // rev() is the forward sequence reversed
                 let bound = 2 * a.count() + 3;
